@@ -457,13 +457,13 @@ Theorem gen_NoDup ic : ep_target_ok -> NoDup (expand (gen_list b ic)).
 Proof.
   intro Hep. rewrite gen_expand. unfold S_gen.
   apply NoDup_app_intro; [apply NoDup_S_pawn, Hep| |
-    intros x H1 H2; repeat (apply in_app_or in H2; destruct H2 as [H2|H2]); disj_tac].
+    intros x H1 H2; rewrite !in_app_iff in H2; destruct H2 as [H2|[H2|[H2|[H2|H2]]]]; disj_tac].
   apply NoDup_app_intro; [apply NoDup_S_knight| |
-    intros x H1 H2; repeat (apply in_app_or in H2; destruct H2 as [H2|H2]); disj_tac].
+    intros x H1 H2; rewrite !in_app_iff in H2; destruct H2 as [H2|[H2|[H2|H2]]]; disj_tac].
   apply NoDup_app_intro; [apply NoDup_S_ord| |
-    intros x H1 H2; repeat (apply in_app_or in H2; destruct H2 as [H2|H2]); disj_tac].
+    intros x H1 H2; rewrite !in_app_iff in H2; destruct H2 as [H2|[H2|H2]]; disj_tac].
   apply NoDup_app_intro; [apply NoDup_S_ord| |
-    intros x H1 H2; repeat (apply in_app_or in H2; destruct H2 as [H2|H2]); disj_tac].
+    intros x H1 H2; rewrite !in_app_iff in H2; destruct H2 as [H2|H2]; disj_tac].
   apply NoDup_app_intro; [apply NoDup_S_ord|apply NoDup_S_king|
     intros x H1 H2; disj_tac].
 Qed.
